@@ -448,18 +448,31 @@ def scopeInfoMetric (esc : Bytes → Bytes) (legacy : Bool) (s : Scope) : Option
     some ⟨b "otel_scope_info", b "Instrumentation Scope metadata", .gauge, labels, .num 4, []⟩
   else none
 
+/-- the labels appended to every series of a scope: scope name/version unless WithoutScopeInfo, then the resource
+constant labels -/
+def scopeExtra (sc : Scenario) (resKV : List KV) (s : Scope) : List KV :=
+  (if sc.noScope then [] else [(scopeNameLabel, s.name), (scopeVersionLabel, s.version)]) ++ resKV
+
+/-- scope info enabled but the scope info metric cannot be created: the whole scope is skipped (`continue`) -/
+def scopeSkipped (esc : Bytes → Bytes) (sc : Scenario) (s : Scope) : Bool :=
+  !sc.noScope && (scopeInfoMetric esc sc.cfg.legacy s).isNone
+
+/-- the `for _, scopeMetrics := range metrics.ScopeMetrics` loop; the family cache is threaded through -/
 def collectScopes (esc : Bytes → Bytes) (sc : Scenario) (resKV : List KV) : List Fam → List Scope → List Emitted
   | _, [] => []
   | fams, s :: rest =>
-    if sc.noScope then
-      let (f2, o) := collectInsts esc sc.cfg resKV fams s.insts
-      o ++ collectScopes esc sc resKV f2 rest
-    else match scopeInfoMetric esc sc.cfg.legacy s with
-      | none => collectScopes esc sc resKV fams rest
-      | some si =>
-        let extra := [(scopeNameLabel, s.name), (scopeVersionLabel, s.version)] ++ resKV
-        let (f2, o) := collectInsts esc sc.cfg extra fams s.insts
-        si :: o ++ collectScopes esc sc resKV f2 rest
+    if scopeSkipped esc sc s then collectScopes esc sc resKV fams rest
+    else
+      let r := collectInsts esc sc.cfg (scopeExtra sc resKV s) fams s.insts
+      (if sc.noScope then [] else (scopeInfoMetric esc sc.cfg.legacy s).toList) ++ r.2 ++
+        collectScopes esc sc resKV r.1 rest
+
+/-- the family cache after the loop -/
+def scopesFams (esc : Bytes → Bytes) (sc : Scenario) (resKV : List KV) : List Fam → List Scope → List Fam
+  | fams, [] => fams
+  | fams, s :: rest =>
+    if scopeSkipped esc sc s then scopesFams esc sc resKV fams rest
+    else scopesFams esc sc resKV (collectInsts esc sc.cfg (scopeExtra sc resKV s) fams s.insts).1 rest
 
 /-- does some getName call of this scrape panic? -/
 def collectPanics (esc : Bytes → Bytes) (sc : Scenario) : Bool :=
@@ -470,13 +483,20 @@ ErrReaderNotRegistered, the error is handled and Collect returns before anything
 in particular no target_info is created (and cached) from a resource that is not there yet. -/
 def collectNotRegistered : List Emitted := []
 
+/-- createInfoMetric(target_info, …, resource) -/
+def targetInfoMetric (esc : Bytes → Bytes) (sc : Scenario) : Emitted :=
+  ⟨b "target_info", b "Target metadata", .gauge, getAttrs esc sc.cfg.legacy sc.res, .num 4, []⟩
+
+/-- `e` is what add*Metric sent for data point `p` of instrument `i` (with these scope/resource labels) -/
+def FromPoint (esc : Bytes → Bytes) (cfg : Cfg) (extra : List KV) (i : Inst) (p : Point) (e : Emitted) : Prop :=
+  ∃ name help, getName esc cfg i.name i.unit i.dtype.mtype = some name ∧
+    emitPoint esc cfg.legacy name help i.dtype.mtype extra p = some e
+
 /-- Collect: everything sent on the channel, in order -/
 def collect (esc : Bytes → Bytes) (sc : Scenario) : List Emitted :=
   let tlabels := getAttrs esc sc.cfg.legacy sc.res
   let target : List Emitted :=
-    if !sc.noTarget && descOK sc.cfg.legacy (b "target_info") tlabels then
-      [⟨b "target_info", b "Target metadata", .gauge, tlabels, .num 4, []⟩]
-    else []
+    if !sc.noTarget && descOK sc.cfg.legacy (b "target_info") tlabels then [targetInfoMetric esc sc] else []
   let resKV := if sc.resConst then getAttrs esc sc.cfg.legacy sc.res else []
   target ++ collectScopes esc sc resKV [] sc.scopes
 
